@@ -7,7 +7,7 @@ kind      'request' | 'response'
 method    request method (str)               target   request target (str)
 status    response status (int)              version  (major, minor)
 fields    tuple of (name, value) str pairs the caller sets on message.headers
-source    'bytes' | 'bytearray' | 'text' | 'list' | 'tuple' | 'gen' | 'textlist' | 'textgen' | 'bytesio' | 'file' | 'none'
+source    'bytes' | 'bytearray' | 'text' | 'list' | 'tuple' | 'gen' | 'iter' | 'textlist' | 'textgen' | 'bytesio' | 'file' | 'none'
 pieces    tuple of bytes (text source: the UTF-8 octets of the text)
 chunked   None (leave alone) | True | False  — assigned to composer.chunked before prepare()
 coding    None | 'gzip' | 'deflate'          — Content-Encoding set by the caller
@@ -43,6 +43,8 @@ def make_source(source, pieces, keep):
 		return tuple(pieces)
 	if source == 'gen':
 		return (p for p in pieces)
+	if source == 'iter':
+		return iter(list(pieces))      # an iterator over a list (what a WSGI gateway hands over)
 	if source == 'bytesio':
 		return io.BytesIO(data)
 	if source == 'bytesio-end':
